@@ -37,6 +37,14 @@ theorem write_failure_paths :
 
 /-! ## the timers -/
 
+/-- entering OpenSent (`tInit`): the hold timer is created with `longHoldTime` on the one path that reaches OpenSent -/
+theorem open_sent_timer_path :
+    ∀ p ∈ pathsOf "sendOpenAndSetHoldTimer", p.ret = ["openSentState"] →
+      (p.calls.filter fun c => c == "set f.holdTimer=time.NewTimer(longHoldTime)").length = 1 ∧
+      (tInit 0 0).holdDl = some (0 + Gen.longHoldTime) := by
+  decide
+
+
 /-- what a step does to the timers, by timer class -/
 def clsTEffs (c : TCls) : List TEff :=
   match c.k, c.ph with
